@@ -169,6 +169,11 @@ func (db *DatabaseCollectionWithUser) importDoc(ctx context.Context, docid strin
 					Cas: doc.Cas,
 				}
 
+				// The document being imported is now the current bucket document, so whether this import is a
+				// delete has to be re-derived from it as well (doc.Deleted: tombstone that still carries xattrs).
+				isDelete = doc.Deleted
+				newDoc.Deleted = isDelete
+
 				if !mutationOptions.PreserveExpiry {
 					// Reload the doc expiry if GoCB is not preserving expiry
 					expiry, getExpiryErr := db.dataStore.GetExpiry(ctx, newDoc.ID)
@@ -181,7 +186,7 @@ func (db *DatabaseCollectionWithUser) importDoc(ctx context.Context, docid strin
 
 				if doc.inlineSyncData {
 					existingDoc.Body, err = doc.MarshalBodyAndSync()
-				} else {
+				} else if !isDelete {
 					existingDoc.Body, err = doc.BodyBytes(ctx)
 				}
 
